@@ -98,7 +98,7 @@ func (m *Machine) specialGlobal(g *ssa.Global) Value {
 		}
 	case "path/filepath.ErrBadPattern", "path.ErrBadPattern":
 		return m.namedError(g)
-	case "io/fs.ErrClosed", "os.ErrDeadlineExceeded", "net/http.ErrBodyReadAfterClose", "net/http.ErrUseLastResponse",
+	case "strconv.ErrSyntax", "strconv.ErrRange", "io/fs.ErrClosed", "os.ErrDeadlineExceeded", "net/http.ErrBodyReadAfterClose", "net/http.ErrUseLastResponse",
 		"net/http.ErrNoLocation", "net/http.ErrNotSupported":
 		return m.namedError(g)
 	}
